@@ -71,7 +71,7 @@ def intKind (kind : String) (w : Nat) : Option (Nat × Int × Int) :=
   | "u64" => some (64, (w : Int), (w : Int))
   | _ => none
 
-def fromInt (n es : Nat) (kind : String) (w : Nat) : Option Nat :=
+def fromIntKind (n es : Nat) (kind : String) (w : Nat) : Option Nat :=
   (intKind kind w).map (fun (fb, v, _) => convert n es (valueOfInt fb v))
 
 /-- `to_double()` under the guard that every factor and the product are exact
